@@ -75,11 +75,19 @@ def classes():
       def inference_key(self):
         return 'src'
 
-    _CLS['list'] = [C08A, C08B, C08Inf, pg.Ref]
+    class C08F(pg.Object):            # immutable by class: every instance is sealed by its constructor
+      allow_symbolic_mutation = False
+      allow_symbolic_assignment = True
+      x: pg.typing.Any(default=None)
+      y: pg.typing.Any(default=None)
+      z: pg.typing.Any(default=None)
+
+    _CLS['list'] = [C08A, C08B, C08Inf, pg.Ref, C08F]
   return _CLS['list']
 
 
-CLASS_ACCW = [False, True, False, False]     # default accessor_writable of the classes (C08A, C08B, C08Inf, pg.Ref)
+CLASS_ACCW = [False, True, False, False, True]     # default accessor_writable of the classes (C08A, C08B, C08Inf, pg.Ref, C08F)
+FROZEN = 4                             # class index of the class with allow_symbolic_mutation = False
 INF = 2                                # class index of the inferential element
 REF = 3                                # class index of a pg.Ref to the external value of the case
 _EXT = [None]                          # the external value that the pg.Ref elements of the tree being built refer to
@@ -90,7 +98,7 @@ _EXT = [None]                          # the external value that the pg.Ref elem
 # ------------------------------------------------------------------------------------------
 
 def is_node(t):
-  return isinstance(t, dict)
+  return isinstance(t, dict) and 'k' in t
 
 
 def children(t):
@@ -178,30 +186,65 @@ def val_node(kind, items, c=0):
 # Real-implementation side
 # ------------------------------------------------------------------------------------------
 
+def literal(x, ext):
+  """`{'from_ext': path}` (the node at that path of the external tree, handed in as it is) -> a copy of
+  that sub-tree: what the receiving container must end up holding."""
+  if isinstance(x, dict) and 'from_ext' in x:
+    return _copy(get_at(ext, x['from_ext']))
+  if isinstance(x, list):
+    return [literal(y, ext) for y in x]
+  if isinstance(x, dict):
+    return {k: literal(v, ext) for k, v in x.items()}
+  return x
+
+
 def build(t):
   """JSON tree -> real symbolic value with exactly the given per-node flags."""
   import pyglove as pg
+  if isinstance(t, dict) and 'from_ext' in t:
+    return navigate(_EXT[0], t['from_ext'])     # offered to the CONSTRUCTOR of the enclosing container
   if not is_node(t):
     return t
+  # `ctor`: the value is sealed BY ITS CONSTRUCTOR (`sealed=True`), not by a later seal() call
+  kw = {'sealed': True} if t.get('ctor') else {}
   if t['k'] == 'list':
-    v = pg.List([build(c) for c in t['items']])
+    v = pg.List([build(c) for c in t['items']], **kw)
   elif t['k'] == 'dict':
-    v = pg.Dict({k: build(c) for k, c in t['items']})
+    v = pg.Dict({k: build(c) for k, c in t['items']}, **kw)
   elif t.get('c', 0) == REF:
     v = pg.Ref(_EXT[0])
   else:
-    v = classes()[t.get('c', 0)](**{k: build(c) for k, c in t['items']})
+    v = classes()[t.get('c', 0)](**{k: build(c) for k, c in t['items']}, **kw)
   return v
 
 
-def apply_flags(v, t):
-  """Sets `_sealed` / `_accessor_writable` node by node (shallow setters of the public API)."""
+def is_ctor(t):
+  """Is the node sealed by its constructor, and still as the constructor left it? (An instance of the
+  immutable class is, as long as its sub-tree is sealed throughout.)"""
+  return bool(t.get('ctor')) or (t['k'] == 'obj' and t.get('c') == FROZEN and deep_flag(t, 's', True))
+
+
+def strip_ctor(t):
+  if not is_node(t):
+    return t
+  out = {k: v for k, v in t.items() if k != 'ctor'}
+  out['items'] = [strip_ctor(c) for c in t['items']] if t['k'] == 'list' else [[k, strip_ctor(c)] for k, c in t['items']]
+  return out
+
+
+def apply_flags(v, t, under_ctor=False):
+  """Sets `_sealed` / `_accessor_writable` node by node (shallow setters of the public API). The
+  sealed flags of a value that was sealed by its constructor (and of everything below it) are left
+  as the constructor made them."""
   import pyglove as pg
   if not is_node(t):
     return
+  under_ctor = under_ctor or is_ctor(t)
   for k, c in children(t):
-    apply_flags(v.sym_getattr(k), c)
+    apply_flags(v.sym_getattr(k), c, under_ctor)
   v.set_accessor_writable(t['w'])
+  if under_ctor:
+    return
   v.sym_seal(t['s'])
   if isinstance(v, pg.Object):
     v.sym_init_args.sym_seal(t.get('ci', t['s']))      # the attribute container has a flag of its own
@@ -243,6 +286,9 @@ def plain(t, sink=None):
   """JSON value tree -> value handed to the API: plain python containers (objects are fresh
   instances); a value that carries its own flags (e.g. a value sealed before it is inserted) is built
   as a parent-less symbolic value with exactly these flags and recorded in `sink` as (json, object)."""
+  if isinstance(t, dict) and 'from_ext' in t:
+    # a value that ALREADY HAS A PARENT: the node at this path of the external tree, handed in as it is
+    return navigate(_EXT[0], t['from_ext'])
   if not is_node(t):
     return t
   if has_flags(t):
@@ -255,6 +301,23 @@ def plain(t, sink=None):
   if t['k'] in ('dict', 'idict'):        # idict: int keys (probe argument of List.rebind)
     return {k: plain(c, sink) for k, c in t['items']}
   return classes()[t.get('c', 0)](**{k: plain(c, sink) for k, c in t['items']})
+
+
+def bad_links(root):
+  """Paths of the symbolic nodes of the tree whose sym_parent / sym_path is not what their place in
+  the tree says (the children of an object have the object as parent)."""
+  import pyglove as pg
+  out = []
+  def walk(v, path, parent):
+    if not isinstance(v, pg.Symbolic):
+      return
+    want = pg.KeyPath(list(path))
+    if v.sym_parent is not parent or (parent is not None and v.sym_path != root.sym_path + want):
+      out.append(list(path))
+    for k, c in v.sym_items():
+      walk(c, path + (k,), v)
+  walk(root, (), root.sym_parent)
+  return out
 
 
 def navigate(root, path):
@@ -786,7 +849,13 @@ class C08(Prop):
           'entry points sym_setparent / sym_setpath are part of the entry-point grid; 250 threaded histories (two worker '
           'threads + the harness thread, scheduled step by step with hand-offs: scopes entered / left per thread, '
           'overlapping without being nested across threads, calls by each thread, all scopes left at the end and '
-          'every thread calling again); '
+          'every thread calling again); 300 histories on values SEALED BY THEIR CONSTRUCTOR (sealed=True on pg.Dict / '
+          'pg.List / objects, and a class with allow_symbolic_mutation=False) at any depth of the tree -- the built value '
+          'must be sealed down to its last symbolic descendant, every mutator is tried on the descendants; 300 histories '
+          'in which a node OF ANOTHER (85 %: deep-sealed) TREE is offered to a container of the tree -- item / attribute '
+          'assignment, append, extend, insert, update, setdefault, one-pair rebind, or the constructor of the container -- '
+          'then seal(False) / writes inside the received element / pop, del, clear, replacement on the receiving side: '
+          'the other tree keeps contents, flags and the sym_parent / sym_path of every node; '
           'plus an exhaustive grid: every entry point x {node, child, '
           'grandchild} x own flag x 9 scope stacks x accessor flag, and every mutating method found by '
           'introspection of the classes\' MRO. Non-trivial: the step addresses a node that is protected '
@@ -796,9 +865,13 @@ class C08(Prop):
       'cross-checked behaviourally by the exhaustive entry-point grid',
       'closed list of builtin list/dict mutators re-derived from the running interpreter by a behavioural probe',
       'modelled, not verified: bodies of the mutators (pre-checks, delegation order, rebind path resolution, '
-      'KeyPath ordering, slice.indices) tied by correspondence; value specs, insertion of symbolic nodes that '
-      'already have a parent (clone semantics: C07), use_value_spec, pickling (__setstate__/__init__) are outside '
-      'the model',
+      'KeyPath ordering, slice.indices) tied by correspondence; value specs, use_value_spec, pickling '
+      '(__setstate__/__init__) are outside the model; a symbolic node that already has a parent arrives in the model '
+      'as a copy of its sub-tree (trees are values there: sharing cannot be expressed, the oracle checks the links '
+      'of both trees through sym_parent / sym_path instead)',
+      'constructors: T-GUARD reads `if sealed: self.seal(True)` in List.__init__ / Dict.__init__ and, for Object, either '
+      'the same or the attribute Dict built with sealed=sealed (genCtorSealsDeep); the model of a constructed-sealed '
+      'value is constructSealed = sealT true',
       'a batched rebind stopped by a target that became sealed during the batch keeps its earlier pairs applied '
       '(the receiver is not protected; the property text demands the sealed value to be unchanged): modelled as '
       'the code does it, the oracle demands WritePermissionError and the sealed value unchanged',
@@ -828,6 +901,8 @@ class C08(Prop):
     yield from self.inferential_cases(rng, 250 if tier == 'quick' else 5000)
     yield from self.ref_cases(rng, 300 if tier == 'quick' else 6000)
     yield from self.thread_cases(rng, 250 if tier == 'quick' else 5000)
+    yield from self.constructed_sealed_cases(rng, 300 if tier == 'quick' else 6000)
+    yield from self.shared_sealed_cases(rng, 300 if tier == 'quick' else 6000)
     yield from self.grid_cases()
     yield from self.discovered_cases()
     yield from self.shallow_seal_cases()
@@ -1224,6 +1299,114 @@ class C08(Prop):
         call_by(th)
       yield {'tree': t, 'steps': steps, 'threads': 2}
 
+  def constructed_sealed_cases(self, rng, n):
+    """Trees in which a Dict / List / Object is sealed BY ITS CONSTRUCTOR (`sealed=True`, or a class
+    with allow_symbolic_mutation = False) -- never by a seal() call -- and has symbolic descendants;
+    then every mutator on the node and, above all, on its descendants; and unseal / reseal."""
+    g = Gen(rng)
+    for _ in range(n):
+      t = g.tree(rng.randint(2, 3))
+      nodes = all_nodes(t)
+      inner = [(p, x) for p, x in nodes if any(is_node(c) for _, c in children(x))] or nodes
+      cpath, cnode = rng.choice(inner)
+      if cnode['k'] == 'obj' and rng.chance(0.5):
+        cnode['c'] = FROZEN
+        cnode['w'] = CLASS_ACCW[FROZEN]
+      else:
+        cnode['ctor'] = True
+      set_deep(cnode, 's', True)
+      if rng.chance(0.2):
+        for _, x in all_nodes(cnode):
+          if rng.chance(0.3):
+            x['w'] = not x['w']
+      sub = all_nodes(cnode)
+      deep = [(p, x) for p, x in sub if p] or sub
+      steps = []
+      for i in range(rng.randint(1, 3)):
+        rp, rn = rng.choice(deep if rng.chance(0.8) else sub)
+        k = rng.below(10)
+        if k == 0:
+          steps.append({'kind': 'seal', 'recv': cpath + rp, 'b': rng.chance(0.5)})
+          continue
+        steps.append({'kind': 'call', 'recv': cpath + rp, 'sealed_scopes': rng.choice([[], [], [], [None], [False]]),
+                      'acc_scopes': rng.choice([[], [True], [True]]), 'call': g.call(rn, sub)})
+        break
+      yield {'tree': t, 'steps': steps, 'constructed': True}
+
+  def shared_sealed_cases(self, rng, n):
+    """A node of a SEALED tree (it has a parent there) is offered to a second container -- by item /
+    attribute assignment, append, extend, insert, update, rebind --, which must take a copy; then the
+    receiving tree is unsealed, written to, and the element is detached there (pop / replace / clear /
+    del). The sealed original keeps content, flags, parent and path. (Controls: unsealed originals.)"""
+    g = Gen(rng)
+    made = 0
+    for _ in range(n * 5):
+      if made >= n:
+        break
+      ext = g.tree(rng.randint(2, 3), rng.choice(['dict', 'list', 'obj']))
+      enodes = [(p, x) for p, x in all_nodes(ext) if p]
+      if not enodes:
+        continue
+      if rng.chance(0.85):
+        set_deep(ext, 's', True)
+      epath, enode = rng.choice(enodes)
+      val = {'from_ext': epath}
+      hk = rng.choice(['list', 'dict', 'obj'])
+      if hk == 'list':
+        holder = val_node('list', [g.atom() for _ in range(rng.randint(0, 2))])
+        n0 = len(holder['items'])
+        offer, at = rng.choice([({'name': 'l_append', 'v': val}, n0), ({'name': 'l_extend', 'vs': [val]}, n0),
+                                ({'name': 'l_insert', 'i': 0, 'v': val}, 0), ({'name': 'rebind', 'pairs': [[[n0], val]]}, n0)]
+                               + ([({'name': 'l_setitem', 'i': 0, 'v': val}, 0)] if n0 else []))
+        detach = [{'name': 'l_pop', 'i': at}, {'name': 'l_delitem', 'i': at}, {'name': 'l_setitem', 'i': at, 'v': g.atom()},
+                  {'name': 'l_clear'}, {'name': 'l_setslice', 'a': at, 'b': at + 1, 'step': None, 'vs': []}]
+      elif hk == 'dict':
+        holder = val_node('dict', [['a', g.atom()]])
+        at = 'n'
+        offer = rng.choice([{'name': 'd_setitem', 'key': 'n', 'v': val}, {'name': 'd_setattr', 'key': 'n', 'v': val},
+                            {'name': 'd_update', 'kvs': [['n', val]]}, {'name': 'rebind', 'pairs': [[['n'], val]]},
+                            {'name': 'd_setdefault', 'key': 'n', 'v': val}])
+        detach = [{'name': 'd_pop', 'key': 'n'}, {'name': 'd_delitem', 'key': 'n'}, {'name': 'd_setitem', 'key': 'n', 'v': g.atom()},
+                  {'name': 'd_clear'}, {'name': 'd_popitem'}]
+      else:
+        holder = val_node('obj', [['x', g.atom()], ['y', None], ['z', None]], 1)
+        at = 'x'
+        offer = rng.choice([{'name': 'o_setattr', 'key': 'x', 'v': val}, {'name': 'rebind', 'pairs': [[['x'], val]]}])
+        detach = [{'name': 'o_setattr', 'key': 'x', 'v': g.atom()}, {'name': 'rebind', 'pairs': [[['x'], g.atom()]]}]
+      t = val_node('dict', [['h', holder], ['c', g.atom()]])
+      def call(recv, c, scopes=None):
+        return {'kind': 'call', 'recv': recv, 'sealed_scopes': scopes or [], 'acc_scopes': [True], 'call': c}
+      steps = [call(['h'], offer)]
+      if rng.chance(0.25):
+        # offered to the CONSTRUCTOR of the holder instead
+        if hk == 'list':
+          holder['items'].append(val)
+          at = len(holder['items']) - 1
+          detach = [{'name': 'l_pop', 'i': at}, {'name': 'l_delitem', 'i': at}, {'name': 'l_setitem', 'i': at, 'v': g.atom()},
+                    {'name': 'l_clear'}]
+        elif hk == 'dict':
+          holder['items'].append(['n', val])
+        else:
+          holder['items'][0][1] = val
+        steps = []
+      inner = all_nodes(enode)
+      for _ in range(rng.randint(1, 3)):
+        k = rng.below(10)
+        if k < 3:
+          steps.append({'kind': 'seal', 'recv': rng.choice([[], ['h'], ['h', at]]), 'b': False})
+        elif k < 6:
+          ip, inode = rng.choice(inner)
+          c = g.call(inode, inner)
+          while c['name'] in ('sym_setparent', 'sym_setpath'):     # these re-link on purpose
+            c = g.call(inode, inner)
+          steps.append(call(['h', at] + ip, c, rng.choice([[], [], [False]])))
+          break
+        else:
+          steps.append(call(['h'], rng.choice(detach), rng.choice([[], [False]])))
+          break
+      made += 1
+      yield {'tree': t, 'ext': ext, 'steps': steps, 'shared': True, 'forest': True}
+
   def grid_cases(self):
     stacks = [[], [True], [False], [None], [True, None], [None, True], [False, True], [True, False], [None, None, False]]
     for leafk, tmpl, path in grid_templates():
@@ -1300,12 +1483,20 @@ class C08(Prop):
   def model_request(self, case):
     if any(s['kind'] == 'generic' for s in case['steps']):
       return None
-    req = {'op': 'run', 'tree': case['tree'], 'steps': case['steps']}
+    steps = case['steps']
+    if case.get('shared'):
+      steps = literal(steps, case['ext'])
+    req = {'op': 'run', 'tree': self.model_tree(case), 'steps': steps}
     if 'ext' in case:
       req['ext'] = case['ext']
     if case.get('threads'):
       req['threads'] = case['threads'] + 1        # the harness thread is the last one
     return req
+
+  @staticmethod
+  def model_tree(case):
+    t = strip_ctor(case['tree'])
+    return literal(t, case['ext']) if case.get('shared') else t
 
   def impl(self, case):
     import pyglove as pg
@@ -1320,14 +1511,14 @@ class C08(Prop):
     ext = build_full(case['ext']) if has_ext else None
     _EXT[0] = ext
     root = build_full(case['tree'])
-    pre0 = dump(root)
+    pre0 = (dump(root), {'tree': bad_links(root), 'ext': bad_links(ext)} if case.get('shared') else None)
     def twin(pre, pre_ext, in_ext):
       """A fresh copy of the forest; returns the tree the step addresses and a function dumping it."""
       e = build_full(pre_ext) if has_ext else None
       _EXT[0] = e
       r = build_full(pre)
       _EXT[0] = ext
-      return (e, r) if in_ext else (r, e)
+      return ((e, r) if in_ext else (r, e)) + (e,)
     def tojson(v):
       return pg.to_json(v, save_ref_value=True)
     nthreads = case.get('threads', 0)
@@ -1375,9 +1566,11 @@ class C08(Prop):
       o['tree'] = dump(root)
       if has_ext:
         o['ext'] = dump(ext)
+      if case.get('shared'):
+        o['links'] = {'tree': bad_links(root), 'ext': bad_links(ext)}
       outs.append(o)
     model = {'steps': [dict({'res': o['res'], 'tree': o['tree']}, **({'ext': o['ext']} if has_ext else {})) for o in outs]}
-    return {'model': model, 'steps': outs, 'pre': pre0}
+    return {'model': model, 'steps': outs, 'pre': pre0[0], 'pre_links': pre0[1]}
 
   def _call_outcome(self, step, target, pre, pre_root, pre_ext, in_ext, twin, tojson):
     """One call with its two twins (nothing sealed / accessors writable), all on the calling thread."""
@@ -1389,21 +1582,38 @@ class C08(Prop):
     # the flagged (e.g. sealed) values handed to the call: what they look like afterwards
     o['ins'] = [{'v': vj, 'after': dump(v)} for vj, v in sink]
     # would the call change anything if nothing were sealed / if accessors were writable?
-    r1, _ = twin(pre_root, pre_ext, in_ext)
-    sink1 = []
-    o['unsealed'] = {'res': run_call(r1, step, extra_sealed=[False], sink=sink1)}
-    o['unsealed']['changes'] = dump(r1) != pre
-    o['unsealed']['ins_changed'] = [dump(v) != vj for vj, v in sink1]
-    r2, _ = twin(pre_root, pre_ext, in_ext)
-    o['acc_true'] = {'res': run_call(r2, step, extra_acc=[True])}
-    o['acc_true']['tree'] = dump(r2)
+    real_ext = _EXT[0]
+    try:
+      r1, _, _EXT[0] = twin(pre_root, pre_ext, in_ext)       # values taken "from ext" come from the twin's ext
+      sink1 = []
+      o['unsealed'] = {'res': run_call(r1, step, extra_sealed=[False], sink=sink1)}
+      o['unsealed']['changes'] = dump(r1) != pre
+      o['unsealed']['ins_changed'] = [dump(v) != vj for vj, v in sink1]
+      r2, _, _EXT[0] = twin(pre_root, pre_ext, in_ext)
+      o['acc_true'] = {'res': run_call(r2, step, extra_acc=[True])}
+      o['acc_true']['tree'] = dump(r2)
+    finally:
+      _EXT[0] = real_ext
     return o
 
   # -- the property itself ------------------------------------------------------------------
   def oracle(self, case, out):
     pre = out['pre']
-    if pre != case['tree']:
+    want = self.model_tree(case)
+    if out.get('pre_links') and (out['pre_links']['tree'] or out['pre_links']['ext']):
+      return {'signature': 'links-broken:constructor',
+              'what': 'after building %s the nodes %s do not have the parent / path that their place in the tree says' % (
+                  case['tree'], out['pre_links'])}
+    if pre != want:
+      if case.get('shared'):
+        return {'signature': 'constructor-copy-differs',
+                'what': 'a container built from a node of another tree must hold a copy of it: built %s, expected %s' % (pre, want)}
+      if any(is_ctor(n) for _, n in all_nodes(case['tree'])):
+        return {'signature': 'constructed-sealed-not-deep',
+                'what': 'a value built with sealed=True (or of a class with allow_symbolic_mutation=False) must come '
+                        'out sealed with all its symbolic descendants: built %s, expected %s' % (pre, want)}
       return {'signature': 'harness-build-mismatch', 'what': 'built %s from %s' % (pre, case['tree'])}
+    pre = want
     pre_ext = case.get('ext')
     stacks = {}          # thread -> [(which, value)], innermost last: the scopes each thread is inside of
     for step, o in zip(case['steps'], out['steps']):
@@ -1427,6 +1637,12 @@ class C08(Prop):
                   'what': '%s at %s of the %s changed the %s: %s -> %s' % (
                       step.get('call', step['kind']), step['recv'], 'external value' if in_ext else 'tree',
                       'tree' if in_ext else 'external value (reachable through pg.Ref only)', other_pre, other_post)}
+      if o.get('links') and (o['links']['tree'] or o['links']['ext']):
+        return {'signature': 'links-broken:' + (step['call']['name'] if step['kind'] == 'call' else step['kind']),
+                'what': 'after %s at %s the nodes %s no longer have the parent / path that their place in the tree says' % (
+                    step.get('call', step['kind']), step['recv'], o['links'])}
+      if case.get('shared') and step['kind'] == 'call':
+        step = literal(step, case['ext'])
       o2 = dict(o, tree=o['ext']) if in_ext else o
       f = self.oracle_step(pre_ext if in_ext else pre, step, o2)
       if f:
@@ -1592,6 +1808,8 @@ class C08(Prop):
       h.append('inferential-elements')
     if case.get('forest'):
       h.append('forest(pg.Ref)')
+    if case.get('constructed'):
+      h.append('sealed-by-constructor')
     if case.get('threads'):
       h.append('threads:%d+harness' % case['threads'])
       h.append('scope-steps:%d' % min(8, sum(1 for s_ in case['steps'] if s_['kind'] == 'enter')))
